@@ -424,7 +424,9 @@ func runCLI(prop string, res *Result, pool *DrvPool, r *Rng) {
 		var out bytes.Buffer
 		os.Setenv("GOTRACEBACK", "")
 		err := verifhooks.Process(strings.NewReader(in), &out, palettes[false], c.sim, c.pf, nil, nil)
-		if err == nil && out.String() == "hello\nworld\n" {
+		if prop == "C02" && err == nil && out.String() == "hello\nworld\n" {
+			// (K1 is a finding against C02's conservation sentence; the other properties that run the
+			// command end to end are not about it)
 			res.KnownFinding("K1", Finding{Stream: "cli", What: "pp drops a lone '==================' line: input \"hello\\n==================\\nworld\\n\" gives \"hello\\nworld\\n\", exit 0", Op: map[string]interface{}{"input": hb(in)}})
 		}
 		one(in, c, nil, false, "k1-witness")
